@@ -78,6 +78,25 @@ def main():
         ck.fail("C18-control", "transaction counters / blocking differ from 'totals = all adds; hourly = adds since the last restart; refuse iff hourly > limit; restart at the first request in a new clock hour'" + ("" if fo else " (another client's event changed this client's counters)"),
                 {"call": "MaxTransactionCount on SimulatedClient(transaction_limit=L)", "history": hs[hi], "client": ci, "impl_observations": res[hi],
                  "failed": "property" if i in pbad else "model-mismatch"})
+    # ---- count sites of the simulated execution layer, through the real simulation (model compares the client's
+    #      transaction_count_total after every event; code 4000000+i = orders agree, the count differs at event i)
+    import simgen, simrun
+    opts = {"p_place": 0.6, "p_manage": 0.8, "p_susp": 0.3, "kinds": ["L"] * 6 + ["LOC"], "no_remove": True, "p_remove": 0.0, "max_upd": 9}
+    scs = [simgen.gen_scenario(rng, opts) for _ in range(600 if thorough else 150)]
+    codes, impl = simrun.run_batch(scs, name="c18sim")
+    mism = [i for i, c in enumerate(codes) if c >= 1000]
+    txbad = [i for i, c in enumerate(codes) if c >= 4000000]
+    kinds = {}
+    for io in impl:
+        for p in io["packages"]:
+            kinds[p["kind"]] = kinds.get(p["kind"], 0) + 1
+    ck.family("simulated_execution_count_sites", len(scs), len({json.dumps(s["script"], sort_keys=True) for s in scs}), mism, txbad,
+              ambiguous=sum(1 for c in codes if c == 1), dist={"packages_by_kind": kinds, "final_totals": sorted({io["tx"][0][1] for io in impl})[:20]},
+              samples=[{"family": "count_sites", "packages": impl[0]["packages"][:3], "final_total": impl[0]["tx"]}])
+    for i in txbad[:3]:
+        ck.fail("C18-count-sites", "client.transaction_count_total differs from bets submitted (place/replace instructions) + failed instructions at event %d of the scenario" % (codes[i] - 4000000),
+                {"scenario": scs[i], "impl_total_per_snapshot": [o["tx"][0][1] for o in impl[i]["obs"] if o["s"] == 0], "packages": impl[i]["packages"],
+                 "how": "harness/impl/simlib.py on the real FlumineSimulation"})
     # lock (trusted) - a test, not a proof
     to = run_impl("c18", {"job": "threads", "n": 20000 if thorough else 4000, "threads": 16})["out"]
     okT = to["total"] == to["expected"]
